@@ -2,25 +2,30 @@
 
 use crate::harness::H;
 
-pub mod c01;
-pub mod c02;
-pub mod c03;
-pub mod c04;
-pub mod c07;
-pub mod c09;
-
-pub fn known(p: &str) -> bool {
-    matches!(p, "C01" | "C02" | "C03" | "C04" | "C07" | "C09")
+macro_rules! props {
+    ($($id:literal => $m:ident),* $(,)?) => {
+        $(pub mod $m;)*
+        pub fn known(p: &str) -> bool {
+            matches!(p, $($id)|*)
+        }
+        pub fn run(h: &H) {
+            match h.cfg.prop.as_str() {
+                $($id => $m::run(h),)*
+                _ => unreachable!(),
+            }
+        }
+    };
 }
 
-pub fn run(h: &H) {
-    match h.cfg.prop.as_str() {
-        "C01" => c01::run(h),
-        "C02" => c02::run(h),
-        "C03" => c03::run(h),
-        "C04" => c04::run(h),
-        "C07" => c07::run(h),
-        "C09" => c09::run(h),
-        _ => unreachable!(),
-    }
+props! {
+    "C01" => c01,
+    "C02" => c02,
+    "C03" => c03,
+    "C04" => c04,
+    "C05" => c05,
+    "C06" => c06,
+    "C07" => c07,
+    "C09" => c09,
+    "C13" => c13,
+    "C14" => c14,
 }
